@@ -363,7 +363,12 @@ class GridSearcher(StochasticSearcher):
             num_samples=self.num_samples,
             metric=self._metric,
             shuffle_config=self._shuffle_config,
+            allow_duplicates=self._allow_duplicates,
         )
+        # The (shuffled) order of the grid depends on the random seed used at
+        # construction. ``next_index`` in ``state`` refers to this order
+        new_searcher.hp_keys = self.hp_keys
+        new_searcher.hp_values_combinations = self.hp_values_combinations
         new_searcher._restore_from_state(state)
         return new_searcher
 
